@@ -416,6 +416,8 @@ class Fn:
             a = self.origin_operand(rv["a"], stack)
             if rv["op"] == "Not" and a[0] == "unop" and a[1] == "Not":
                 return a[2]
+            if rv["op"] == "Not" and a[0] == "const" and len(a) > 2 and a[2] == "bool":
+                return ("const", 0 if a[1] else 1, "bool")
             return ("unop", rv["op"], a)
         if k == "discr":
             return ("discr", self.origin_place(rv["place"], stack))
@@ -460,6 +462,8 @@ class Fn:
                 return False        # arithmetic checks of a pure computation do not make it less of an accessor
             if t["k"] == "call" and not (t["callee"] in TRANSPARENT_CALLS or t["callee"] == "std::clone::Clone::clone"):
                 return False
+            if t["k"] == "call" and t.get("rlocal") and t["res"] == "item":
+                return False        # a conversion implemented in this crate (`impl From<u64> for Nibble`) is code, not a cast
             for s in self.blocks[b]["stmts"]:
                 if s["k"] == "assign" and "deref" in s["place"]["p"]:
                     return False
@@ -726,6 +730,8 @@ class Facts:
         self.inlined = []
         if not os.environ.get("VERIF_NO_INLINE"):
             import inline
+            inline.resolve_into(self)
+            self.desugared = inline.desugar_combinators(self) if not os.environ.get("VERIF_NO_DESUGAR") else {}
             self.inlined = inline.run(self)
             self.merged = inline.merge_private_helpers(self) if not os.environ.get("VERIF_NO_MERGE_HELPERS") else {}
 
@@ -1040,6 +1046,19 @@ def variant_edges(fn, bb):
         for n in rest:
             out.append((n, other))
     return scrut, out
+
+
+def variant_edges_of(fn, expr):
+    """[(variant_name, (switch block, target))] over every switch of fn whose scrutinee is `expr` (wherever the switch
+    sits: right after the call that produced the value, or later)"""
+    out = []
+    for b in sorted(fn.live_blocks()):
+        if fn.term(b)["k"] != "switch":
+            continue
+        ve = variant_edges(fn, b)
+        if ve and strip_site(ve[0]) == strip_site(expr):
+            out += [(n, (b, tgt)) for n, tgt in ve[1]]
+    return out
 
 
 def const_of(e):
